@@ -36,10 +36,10 @@ def run_history(spec, hist):
     S = spec.build(hist[0])
     viols = []
     for i, op in enumerate(hist[1:]):
-        v = spec.apply(S, op)
-        c = spec.check(S)
+        v = list(spec.apply(S, op))
+        c = [] if v else list(spec.check(S))
         if i == len(hist) - 2:
-            viols = list(v) + list(c)
+            viols = v + c
     if len(hist) == 1:
         viols = list(spec.check(S))
     return viols
@@ -60,7 +60,8 @@ def _expand(batch):
             S = replay(spec, hist)
             before = spec.model_key(S) if hasattr(spec, "model_key") else None
             v = list(spec.apply(S, op))
-            v += list(spec.check(S))
+            if not v:  # after a violating step the state is corrupt; its sweep would only echo the defect
+                v = list(spec.check(S))
             ntrans += 1
             kind = op[0] if isinstance(op, (list, tuple)) else str(op)
             per_op[kind] = per_op.get(kind, 0) + 1
